@@ -1,6 +1,13 @@
-"""Level category claimed per property (must agree with MANIFEST.json)."""
+"""Level category per property: taken from /verif/claims/<id>.json (the same source MANIFEST.json is generated from)."""
+import glob
+import json
+import os
+
+_ROOT = os.path.dirname(os.path.dirname(os.path.abspath(__file__)))
 LEVEL = {}
-for _p in ("C03", "C04", "C05", "C06", "C07", "C11", "C13", "C14", "C15", "C16", "C17", "C18", "C20"):
-    LEVEL[_p] = "proof"
-for _p in ("C01", "C02", "C08", "C09", "C10", "C12", "C19"):
-    LEVEL[_p] = "other"
+for _f in glob.glob(os.path.join(_ROOT, "claims", "C*.json")):
+    try:
+        with open(_f) as _fh:
+            LEVEL[os.path.basename(_f)[:-5]] = json.load(_fh).get("category", "other")
+    except Exception:
+        pass
